@@ -916,3 +916,22 @@ package corerad
 //@   at call Dial(dd, dctx2, dfn): assert D1 [C10,C08]: dd == a.dialer && dctx2 == ctx && isClosure(dfn, "corerad.(*Advertiser).Run$1") && !ghost.dialed
 //@   at call Dial(dd, dctx2, dfn) (derr): ghost.dialed = true ; ghost.dres = derr
 //@   ensures E1 [C10,C08]: ghost.dialed && result == ghost.dres
+
+// serve: the debug HTTP listener's retry loop: at most 40 attempts, `delay`
+// between them, success on cancellation or a closed server, a network error is
+// retried, anything else is returned as it is.
+//@ funcparam corerad.serve.fn() (err)
+//@   assigns everything
+//@   ensures N1: err != nil
+//@ func serve
+//@   ghost local attempts Int
+//@   ghost local last Iface
+//@   requires P1: ctx != nil && fn != nil
+//@   assigns everything
+//@   at call fn() (ferr): ghost.attempts = ghost.attempts + 1 ; ghost.last = ferr
+//@   at call time.After(w): assert W1 [C10,C20]: w == delay && ghost.attempts >= 1
+//@   loop 1 invariant L1 [C10,C20]: 0 <= i && i <= 40 && ghost.attempts == i && fn != nil && ctx != nil && (ghost.attempts >= 1 ==> ghost.last != nil && !errIs(ghost.last, global("http.ErrServerClosed")))
+//@   ensures E1 [C10,C20]: ghost.attempts <= 40
+//@   ensures E2 [C10,C20]: result != nil ==> ghost.attempts >= 1 && (result == ghost.last || ghost.attempts == 40)
+//@   ensures E3 [C10,C20]: ghost.attempts >= 1 && errIs(ghost.last, global("http.ErrServerClosed")) ==> result == nil
+//@   opt safety [C20]
